@@ -58,7 +58,10 @@ func (fc *fnCtx) runAnchors(st *state, kind string, match func(arg string) bool,
 		}
 		fc.anchorsHit[c]++
 		ev := &evalCtx{cur: st, old: fc.entry, bind: bind}
-		t := fc.evalFormula(c.f, ev)
+		t, okc := fc.evalOwn(c, ev, "at."+c.anchor)
+		if !okc {
+			continue
+		}
 		switch c.kind {
 		case "at-assert":
 			g := t
